@@ -29,7 +29,13 @@ RULE = ("real hashes of a small password set (empty, NUL, 10 kB, near-identical 
         "consistent function (the theorems hold for any kdf), a short one with the real scrypt, and histories run in FRESH "
         "interpreter processes (first hash under non-default settings, the demo order, random orders); every hash must embed the "
         "settings current at its call, carry a fresh salt of the configured length, differ from every other hash of the process "
-        "and verify (own: True, other: False) at any later moment")
+        "and verify (own: True, other: False) at any later moment; IDENTIFICATION PAIRS (harness/identlib.py): ~2000 pairs p != q "
+        "of byte strings related by a transformation some canonicalisation would undo - Unicode NFC/NFD/NFKC/NFKD, case mappings, "
+        "added / stripped / collapsed blanks, BOM, zero-width characters, full-width and look-alike letters, over-long / CESU / "
+        "modified UTF-8, latin-1 / UTF-16 / UTF-32 encodings of the same text, lossy decoding, truncation at 8/55/56/64/72/128/255/"
+        "256 bytes and at NUL, NUL padding, the password's own digest / hex / base64, the password repeated - both directions: all "
+        "on hashes made by the real hash_password under the cheap kdf, a sample through the full verify pipeline (key material "
+        "handed to scrypt compared with the model), a few on real scrypt hashes; the text offered as str is refused")
 ASSUMPTIONS = ["premises of the theorems about base64.b64decode: b64decode(b64encode(x)) = x (b64_roundtrip); a proper prefix "
                "of an encoding is refused or decodes to fewer bytes (b64_prefix_shorter); it fails with binascii.Error, a "
                "ValueError, only (b64_err_value) - each sampled here on the real library (every encode, every prefix, every "
@@ -271,8 +277,12 @@ def spied_verify(pw, h):
 
 
 def describe(c):
-    return {"password": c["pw"] if isinstance(c["pw"], bytes) else repr(c["pw"]),
-            "hash": c["h"] if isinstance(c["h"], str) and c["h"].isprintable() else repr(c["h"]), "tag": c["tag"]}
+    d = {"password": c["pw"] if isinstance(c["pw"], bytes) else repr(c["pw"]),
+         "hash": c["h"] if isinstance(c["h"], str) and c["h"].isprintable() else repr(c["h"]), "tag": c["tag"]}
+    if "hashed" in c:      # identification pairs: the password the hash was made of and how the offered one relates to it
+        d["hashed_password"] = c["hashed"]
+        d["relation"] = c["rel"]
+    return d
 
 
 def judge(ctx, c, o):
@@ -787,6 +797,115 @@ def process_histories(ctx):
     verify_batch(ctx, cases)
 
 
+# ------------------------------------------------------------------ passwords an implementation might IDENTIFY
+
+IDENT_CORE = [(b"caf\xc3\xa9-2024", b"cafe\xcc\x81-2024", "unicode-NFD"), (b"\xef\xac\x81shbowl", b"fishbowl", "unicode-NFKC"),
+              (b"\xe2\x84\xabngstrom", b"\xc3\x85ngstrom", "unicode-NFC"), (b"Stra\xc3\x9fe 7", b"strasse 7", "case-fold"),
+              (b"hunter2", b"Hunter2", "case-first-letter"), (b" pass word ", b"pass word", "space-strip"),
+              (b"hunter2", b"\xef\xbb\xbfhunter2", "bom-lead"), (b"hunter2", b"hunt\xe2\x80\x8ber2", "zero-width-U+200B"),
+              (b"hunter2", b"\xc1\xa8unter2", "utf8-overlong-2"), (b"Tr0ub4dor&3 " * 6 + b"tail-A", b"Tr0ub4dor&3 " * 6, "truncate-72"),
+              (b"p\xc3\xa4ss\x00w\xc3\xb6rd", b"p\xc3\xa4ss", "nul-truncated"), (b"caf\xc3\xa9", b"caf\xe9", "encoding-latin-1")]
+
+
+def identification_pairs(ctx):
+    """'False for EVERY q different from p': q ranges over byte strings that a plausible canonicalisation would identify with p
+    (harness/identlib.py: Unicode normal forms, case mappings, blanks, BOM, zero-width characters, over-long / other encodings,
+    truncation at 8..256 bytes and at NUL, the password's own digest, ...), in both directions.
+      A. every pair, hash strings made by the REAL hash_password with the cheap kdf substitute of the process histories:
+         verify(p, hash(p)) is True, verify(q, hash(p)) is False, the digest in the string is the kdf of sha256(p) - of the bytes
+         as they are; the hash calls also go through the model (unit auth_history)
+      B. pairs through the full verify pipeline (units auth_verify / auth_prepare: the key material the implementation hands to
+         scrypt is sha256 of the offered bytes) on same-format strings with cheap scrypt parameters; the text as str is refused
+      C. a few pairs (one per family, a rotating selection) on real hashes with the real scrypt"""
+    from harness import identlib
+    run, rng = ctx.run, ctx.run.rng
+    pairs = identlib.password_pairs(rng, run.thorough())
+    run.count("identification_pairs", len(pairs))
+    for tag, p, q in pairs:
+        run.count("identification_" + identlib.family(tag))
+    by_p = {}
+    for tag, p, q in pairs:
+        by_p.setdefault(p, []).append((tag, q, "offered = T(hashed)"))
+        by_p.setdefault(q, []).append((tag, p, "hashed = T(offered)"))
+    site = "Auth.verify_password of a different byte string that a canonicalisation would identify with the password"
+    # ---- A
+    results, mops = [], []
+    with AuthWorld(True) as w:
+        Auth = w.A.Auth
+        Auth.SALT_LENGTH, Auth.DIGEST_LENGTH = 16, 24
+        for p, qs in by_p.items():
+            del w.urandom[:], w.kdf_calls[:]
+            o = lib.guarded(Auth.hash_password, p, wrap=lambda s: s.encode("utf-8") if isinstance(s, str) else ["not-a-str"])
+            rec = read_hash(o[1].decode("utf-8")) if o[0] == 0 and isinstance(o[1], bytes) else None
+            salt = rec[5][:16] if rec is not None else (w.urandom[0][1] if w.urandom else b"")
+            mops.append([1, v_py(p), salt])
+            results.append((16, 24, p, salt, o))
+            run.evaluations += 1
+            d = {"password": p, "cheap_kdf": True, "observed": o}
+            if rec is None:
+                ctx.violation("hash-raises" if o[0] == 1 else "hash-malformed", d, "Auth.hash_password")
+                continue
+            h = d["hash"] = o[1].decode("utf-8")
+            del d["observed"]
+            if rec[:5] != (16384, 16, 1, 16, 24) or len(rec[5]) != 40:
+                ctx.violation("hash-embeds-stale-parameters", dict(d, embedded=list(rec[:5])), "Auth.hash_password")
+            elif rec[5][16:] != cheap_derive(salt, 24, 16384, 16, 1, hashlib.sha256(p).digest()):
+                ctx.violation("hash-digest-wrong", dict(d, note="the digest is not the kdf of sha256(password bytes as given)"),
+                              "Auth.hash_password")
+            o = lib.guarded(Auth.verify_password, p, h, wrap=as_flag)
+            run.evaluations += 1
+            if o != [0, 1]:
+                ctx.violation("honest-hash-raises" if o[0] == 1 else "own-password-rejected", dict(d, observed=o), "Auth.verify_password")
+            for tag, q, direction in qs:
+                o = lib.guarded(Auth.verify_password, q, h, wrap=as_flag)
+                run.evaluations += 1
+                run.nt(("ident", p, q))
+                if o != [0, 0]:
+                    ctx.violation("honest-hash-raises" if o[0] == 1 else "other-password-accepted",
+                                  {"password": q, "hashed_password": p, "relation": tag, "direction": direction, "hash": h,
+                                   "cheap_kdf": True, "observed": o}, site)
+    for lo in range(0, len(results), 1500):
+        history_model(ctx, results[lo:lo + 1500], mops[lo:lo + 1500], True, "identification-pairs/cheap-kdf[%d:]" % lo)
+    # ---- B
+    core = [(t, p, q) for p, q, t in IDENT_CORE]
+    fam = {}
+    for x in pairs:
+        fam.setdefault(identlib.family(x[0]), []).append(x)
+    chosen = core + [rng.choice(v) for v in fam.values()]
+    chosen += pairs if run.thorough() else rng.sample(pairs, min(len(pairs), 700))
+    cases = []
+    for tag, p, q in chosen:
+        for a, b in ((p, q), (q, p)) if run.thorough() or rng.random() < 0.3 else (((p, q),) if rng.random() < 0.5 else ((q, p),)):
+            salt = bytes(rng.randrange(256) for _ in range(rng.choice([16, 16, 8])))
+            h = make_hash(a, salt, N=rng.choice([2, 4]), r=1, p=1, ln=rng.choice([24, 24, 16, 8]))
+            cases.append({"pw": a, "h": h, "tag": "ident-own:" + tag, "expect": True})
+            cases.append({"pw": b, "h": h, "tag": "ident-other:" + tag, "expect": False, "hashed": a, "rel": tag})
+    # the same text offered as str: refused (TypeError), never compared
+    for t in identlib.TEXTS[:8]:
+        h = make_hash(t.encode("utf-8"), b"s" * 16, ln=24)
+        cases.append({"pw": t, "h": h, "tag": "types"})
+        cases.append({"pw": bytearray(t.encode("utf-8")), "h": h, "tag": "types"})
+    verify_batch(ctx, cases)
+    run.count("identification_pipeline_cases", len(cases))
+    # ---- C
+    from mpgameserver.auth import Auth
+    k = len(core) if run.thorough() else 4
+    real = rng.sample(core, k) + [rng.choice(fam[f]) for f in rng.sample(sorted(fam), 12 if run.thorough() else 3)]
+    cases = []
+    for tag, p, q in real:
+        if len(p) + len(q) > 2000:
+            continue
+        a, b = (p, q) if rng.random() < 0.5 else (q, p)
+        h = lib.guarded(Auth.hash_password, a)
+        if h[0] != 0 or not isinstance(h[1], str):
+            ctx.violation("hash-raises", {"password": a, "observed": repr(h)}, "Auth.hash_password")
+            continue
+        cases.append({"pw": a, "h": h[1], "tag": "ident-own:real:" + tag, "expect": True})
+        cases.append({"pw": b, "h": h[1], "tag": "ident-other:real:" + tag, "expect": False, "hashed": a, "rel": tag})
+    verify_batch(ctx, cases)
+    run.count("identification_real_scrypt_cases", len(cases))
+
+
 # ------------------------------------------------------------------ the run
 
 def run(run):
@@ -948,6 +1067,7 @@ def run(run):
             except ValueError:
                 pass
     process_histories(ctx)
+    identification_pairs(ctx)
     run.count("scrypt_derivations_expensive", ctx.expensive)
     run.count("scrypt_derivations_total", len(ctx.kdf_cache))
     run.count("skipped_expensive_parameters", ctx.skipped)
